@@ -382,7 +382,32 @@ func (m *Machine) stmtL(fr *frame, s ast.Stmt, label string) {
 				m.block(inner, lit.Body.List)
 			})
 		} else {
-			fr.defers = append(fr.defers, func() { m.expr(fr, call) })
+			// the arguments of a deferred call are evaluated when the defer statement executes: the locals they
+			// mention keep the values they have now
+			snap := map[types.Object]val{}
+			for _, a := range call.Args {
+				ast.Inspect(a, func(n ast.Node) bool {
+					if id, ok := n.(*ast.Ident); ok {
+						if o := m.info.Uses[id]; o != nil {
+							if v, has := fr.env[o]; has {
+								snap[o] = v
+							}
+						}
+					}
+					return true
+				})
+			}
+			fr.defers = append(fr.defers, func() {
+				saved := map[types.Object]val{}
+				for o, v := range snap {
+					saved[o] = fr.env[o]
+					fr.env[o] = v
+				}
+				m.expr(fr, call)
+				for o, v := range saved {
+					fr.env[o] = v
+				}
+			})
 		}
 	case *ast.IncDecStmt:
 		if x := m.expr(fr, s.X); x.k == vInt {
